@@ -9,12 +9,12 @@ Import ListNotations.
 
 Section Any.
 Context {F : Type} `{Num F} {A : Type}.
-Variables (cfg : @config F) (K : @kernels F A).
+Variables (cfg : @config F) (K : @kernels F A) (ng : nat).
 
 (* (1) a returned stop_crit <= tol is the criterion (all groups + intercept) evaluated at the returned (w, Xw) *)
 Theorem bsolve_stop_is_criterion w_init Xw_init out :
-  bsolve cfg K w_init Xw_init = Ok out -> ele (g_stop out) (tol cfg) = true ->
-  exists lip opt, k_lipschitz K = Ok lip /\ bcrit cfg K lip (g_s out) = Ok (opt, g_stop out).
+  bsolve cfg K ng w_init Xw_init = Ok out -> ele (g_stop out) (tol cfg) = true ->
+  exists lip opt, k_lipschitz K = Ok lip /\ bcrit cfg K lip ng (g_s out) = Ok (opt, g_stop out).
 Proof.
   unfold bsolve. intros Hrun Hle. apply bind_ok in Hrun as ([w0 Xw0] & Hs0 & Hrun).
   destruct (negb _); [discriminate|]. apply bind_ok in Hrun as (lip & Hlip & Hrun).
@@ -23,7 +23,7 @@ Qed.
 
 (* (2) one history entry per outer iteration, the last one is the objective of the returned point *)
 Theorem bsolve_history w_init Xw_init out :
-  bsolve cfg K w_init Xw_init = Ok out ->
+  bsolve cfg K ng w_init Xw_init = Ok out ->
   length (g_obj out) = g_iters out /\ (g_iters out <= max_iter cfg)%nat /\
   (g_obj out = [] \/ bobjective cfg K (g_s out) = Ok (last (g_obj out) PInf)).
 Proof.
@@ -74,7 +74,7 @@ Proof.
     destruct brk; [inversion Hrun; subst; assumption|eapply IH; eauto].
 Qed.
 
-Lemma bbody_I s opt sc s' : I (b_w s) (b_Xw s) -> bbody cfg K lip s opt sc = Ok s' -> I (b_w s') (b_Xw s').
+Lemma bbody_I s opt sc s' : I (b_w s) (b_Xw s) -> bbody cfg K lip ng s opt sc = Ok s' -> I (b_w s') (b_Xw s').
 Proof.
   intros HI Hb. unfold bbody in Hb. apply bind_ok in Hb as (gs & Hgs & Hb).
   apply bind_ok in Hb as ([[[w Xw] a] ne] & Hin & Hb). inversion Hb; subst; simpl.
@@ -86,22 +86,22 @@ Theorem bsolve_preserves (I : list F -> list F -> Prop) w0 Xw0 out :
   (forall lip w Xw ws w' Xw', I w Xw -> k_epoch K (wp cfg w) Xw lip ws = Ok (w', Xw') -> I (with_wp cfg w w') Xw') ->
   (forall w Xw w' Xw', I w Xw -> b_intercept_update cfg K w Xw = Ok (w', Xw') -> I w' Xw') ->
   (forall a w Xw w_acc Xw_acc a', I w Xw -> k_acc_step K a w Xw = Ok (w_acc, Xw_acc, true, a') -> I w_acc Xw_acc) ->
-  I w0 Xw0 -> bsolve cfg K (Some w0) (Some Xw0) = Ok out -> I (b_w (g_s out)) (b_Xw (g_s out)).
+  I w0 Xw0 -> bsolve cfg K ng (Some w0) (Some Xw0) = Ok out -> I (b_w (g_s out)) (b_Xw (g_s out)).
 Proof.
   intros He Hi Ha HI Hrun. unfold bsolve in Hrun. cbn [bind] in Hrun.
   destruct (negb _); [discriminate|]. apply bind_ok in Hrun as (lip & Hlip & Hrun).
-  assert (Hstep : forall s c sc s', I (b_w s) (b_Xw s) -> bcrit cfg K lip s = Ok (c, sc) -> bbody cfg K lip s c sc = Ok s' -> I (b_w s') (b_Xw s')).
+  assert (Hstep : forall s c sc s', I (b_w s) (b_Xw s) -> bcrit cfg K lip ng s = Ok (c, sc) -> bbody cfg K lip ng s c sc = Ok s' -> I (b_w s') (b_Xw s')).
   { intros s c sc s' HIs _ Hb. eapply (bbody_I lip I); eauto. }
   set (s0 := {| b_w := w0; b_Xw := Xw0; b_acc := k_acc_init K; b_epochs := 0 |}) in Hrun.
   assert (HI0 : I (b_w s0) (b_Xw s0)) by exact HI.
-  exact (grun_inv (tol cfg) (bcrit cfg K lip) (bbody cfg K lip) (bobjective cfg K) (fun s => I (b_w s) (b_Xw s)) Hstep _ s0 out HI0 Hrun).
+  exact (grun_inv (tol cfg) (bcrit cfg K lip ng) (bbody cfg K lip ng) (bobjective cfg K) (fun s => I (b_w s) (b_Xw s)) Hstep _ s0 out HI0 Hrun).
 Qed.
 End Any.
 
 (* (4) descent (over R) *)
 Section Descent.
 Context {A : Type}.
-Variables (cfg : @config R) (K : @kernels R A).
+Variables (cfg : @config R) (K : @kernels R A) (ng : nat).
 Variable E : list R -> list R -> Ext R.
 Hypothesis Hobj : forall w Xw, bind (k_df_value K w Xw) (fun d => bind (k_pen_value K (wp cfg w)) (fun pv => Ok (eadd (Fin d) pv))) = Ok (E w Xw).
 Hypothesis E_epoch : forall lip w Xw ws w' Xw',
@@ -149,7 +149,7 @@ Proof.
 Qed.
 
 Lemma bbody_descends lip s opt sc s' :
-  bbody cfg K lip s opt sc = Ok s' -> ext_le (E (b_w s') (b_Xw s')) (E (b_w s) (b_Xw s)).
+  bbody cfg K lip ng s opt sc = Ok s' -> ext_le (E (b_w s') (b_Xw s')) (E (b_w s) (b_Xw s)).
 Proof.
   intros Hb. unfold bbody in Hb. apply bind_ok in Hb as (gs & Hgs & Hb).
   apply bind_ok in Hb as ([[[w Xw] a] ne] & Hin & Hb). inversion Hb; subst; simpl.
@@ -157,24 +157,24 @@ Proof.
 Qed.
 
 Theorem bsolve_descends w0 Xw0 out :
-  bsolve cfg K (Some w0) (Some Xw0) = Ok out -> ext_le (E (b_w (g_s out)) (b_Xw (g_s out))) (E w0 Xw0).
+  bsolve cfg K ng (Some w0) (Some Xw0) = Ok out -> ext_le (E (b_w (g_s out)) (b_Xw (g_s out))) (E w0 Xw0).
 Proof.
   intros Hrun. unfold bsolve in Hrun. cbn [bind] in Hrun.
   destruct (negb _); [discriminate|]. apply bind_ok in Hrun as (lip & Hlip & Hrun).
   change (E w0 Xw0) with (E (b_w {| b_w := w0; b_Xw := Xw0; b_acc := k_acc_init K; b_epochs := 0 |})
                             (b_Xw {| b_w := w0; b_Xw := Xw0; b_acc := k_acc_init K; b_epochs := 0 |})).
-  eapply (grun_descends (tol cfg) (bcrit cfg K lip) (bbody cfg K lip) (bobjective cfg K) (fun s => E (b_w s) (b_Xw s))
+  eapply (grun_descends (tol cfg) (bcrit cfg K lip ng) (bbody cfg K lip ng) (bobjective cfg K) (fun s => E (b_w s) (b_Xw s))
             ext_le ext_le_refl ext_le_trans (fun _ => True)); [auto| |exact I|exact Hrun].
   intros s c sc s' _ _ Hb. eapply bbody_descends; eauto.
 Qed.
 
 Theorem brun_budget_monotone lip k s0 out1 out2 :
-  grun (tol cfg) (bcrit cfg K lip) (bbody cfg K lip) (bobjective cfg K) k s0 = Ok out1 ->
-  grun (tol cfg) (bcrit cfg K lip) (bbody cfg K lip) (bobjective cfg K) (S k) s0 = Ok out2 ->
+  grun (tol cfg) (bcrit cfg K lip ng) (bbody cfg K lip ng) (bobjective cfg K) k s0 = Ok out1 ->
+  grun (tol cfg) (bcrit cfg K lip ng) (bbody cfg K lip ng) (bobjective cfg K) (S k) s0 = Ok out2 ->
   ext_le (E (b_w (g_s out2)) (b_Xw (g_s out2))) (E (b_w (g_s out1)) (b_Xw (g_s out1))).
 Proof.
   intros H1 H2.
-  eapply (grun_budget_monotone (tol cfg) (bcrit cfg K lip) (bbody cfg K lip) (bobjective cfg K) (fun s => E (b_w s) (b_Xw s))
+  eapply (grun_budget_monotone (tol cfg) (bcrit cfg K lip ng) (bbody cfg K lip ng) (bobjective cfg K) (fun s => E (b_w s) (b_Xw s))
             ext_le ext_le_refl ext_le_trans (fun _ => True)); [auto| |exact I|exact H1|exact H2].
   intros s c sc s' _ _ Hb. eapply bbody_descends; eauto.
 Qed.
